@@ -61,6 +61,7 @@ def main(argv=None):
     ap.add_argument('--replay', default=None)
     ap.add_argument('--timeout', type=float, default=None)
     ap.add_argument('--no-evidence', action='store_true')
+    ap.add_argument('--write-lock', action='store_true')
     ap.add_argument('--verbose', '-v', action='store_true')
     args = ap.parse_args(argv)
     seed = int(os.environ.get('VERIF_SEED', '0') or 0)
@@ -146,6 +147,27 @@ def run_property(pid, tier, seed, args):
     if not obligations:
         log('CHECK-ERROR property=%s zero obligations generated' % pid)
         return 3
+
+    # ---- vacuity guard: on unchanged source the explored paths must be the ones recorded in the lock -------------
+    lockdata = N.load_lock_full(pid)
+    shape = {}
+    for rp in reports:
+        rep = rp.get('rep')
+        if rep is None or rep.source is None:
+            continue
+        kinds = {}
+        for pth in rep.paths:
+            key = pth['case'] + '/' + pth['kind']
+            kinds[key] = kinds.get(key, 0) + 1
+        shape[rep.target + '#' + type(rp['contract']).__name__] = {'sha256': rep.source['sha256'], 'paths': kinds,
+                                                                   'obligations': len(rep.obligations)}
+    if lockdata and not args.write_lock:
+        for tgt, now in shape.items():
+            was = lockdata.get('shape', {}).get(tgt)
+            if was and was['sha256'] == now['sha256'] and was['paths'] != now['paths']:
+                log('CHECK-ERROR property=%s %s: source unchanged but explored paths differ from the lock (%s vs %s): '
+                    'the check itself regressed' % (pid, tgt, now['paths'], was['paths']))
+                return 3
 
     # ---- discharge -----------------------------------------------------------------------------
     tasks = []
@@ -337,6 +359,10 @@ def run_property(pid, tier, seed, args):
         'wall_s': round(time.time() - t0, 2),
         'violations': violations,
     }
+    if args.write_lock:
+        N.write_lock(pid, {'shape': shape,
+                           'names': sorted(ob.name for i, ob in enumerate(obligations) if results[i]['status'] == 'unsat' or
+                                           str(results[i]['status']).startswith('known-finding'))})
     if not args.no_evidence:
         os.makedirs(os.path.join(VERIF, 'evidence'), exist_ok=True)
         with open(os.path.join(VERIF, 'evidence', '%s.json' % pid), 'w') as f:
